@@ -106,7 +106,7 @@ const c19StreamDocRev = `[0,false,"2",[[1],7],{"a":1},[1,[2,3]],[2,5],[1],[],tru
 var c19Sum = &Func{Name: "sum", Params: []string{"n"}, Body: Blk(&Return{X: &MatchExpr{Subj: V("n"), Cases: []MatchCase{{Pats: []Expr{N("0")}, Body: N("0")}, {Pats: []Expr{V("m")}, Body: Bin("+", CallE(V("sum"), Bin("-", V("m"), N("1"))), V("m"))}}}})}
 var c19T2 = &Func{Name: "t2", Params: []string{"i"}, Body: Blk(&Return{X: &MatchExpr{Subj: Arr_(V("i"), S("in t2")), Cases: []MatchCase{{Pats: []Expr{Arr_(V("x"), V("y"))}, Body: Arr_(V("y"), V("x"))}}}})}
 
-const c19Bodies = 5
+const c19Bodies = 6
 
 func c19Build(s c19Spec, pats []c19Pat) *progCase {
 	var subj Expr
@@ -139,6 +139,13 @@ func c19Build(s c19Spec, pats []c19Pat) *progCase {
 		case 4:
 			// a callee that matches (and recurses through a match) runs in the middle of the body
 			mc.Body = Arr_(CallE(V("sum"), N("3")), V("x"), CallE(V("t2"), id), V("x"), V("y"))
+		case 5:
+			// a block body that is left by continue (by next when the match runs once per element): the case is over all the same
+			var leave Stmt = &Continue{}
+			if s.Subj < 0 {
+				leave = &Next{}
+			}
+			mc.Block = Blk(Pr(S("block"), id, V("x"), V("y")), leave, Pr(S("never")))
 		}
 		m.Cases = append(m.Cases, mc)
 	}
@@ -148,12 +155,24 @@ func c19Build(s c19Spec, pats []c19Pat) *progCase {
 		Pr(S("r"), V("r"), &IsExpr{V("r"), "null"}),
 		Pr(S("after"), V("x"), V("y")),
 	)
+	if s.Body == 5 && s.Subj >= 0 {
+		// the match sits in a loop of two rounds; what follows the loop sees the outer x and y
+		body = Blk(
+			Ex(Asg("=", V("x"), S("ox"))), Ex(Asg("=", V("y"), S("oy"))),
+			&ForIn{V: "round", Iter: Arr_(N("1"), N("2")), Body: Blk(Ex(Asg("=", V("r"), m)), Pr(S("r"), V("r"), &IsExpr{V("r"), "null"}), Pr(S("in loop"), V("x"), V("y")))},
+			Pr(S("after"), V("x"), V("y")),
+		)
+	}
 	if s.Subj < 0 {
 		doc := c19StreamDoc
 		if s.Rev {
 			doc = c19StreamDocRev
 		}
-		return &progCase{P: &Program{Funcs: []*Func{c19T, c19Sum, c19T2}, Rules: []*Rule{{Body: body}}}, Files: []inFile{{"in.json", doc}}}
+		rules := []*Rule{{Body: body}}
+		if s.Body == 5 {
+			rules = append(rules, &Rule{Body: Blk(Pr(S("second rule"), V("x"), V("y")))}, &Rule{Kind: "END", Body: Blk(Pr(S("end"), V("x"), V("y")))})
+		}
+		return &progCase{P: &Program{Funcs: []*Func{c19T, c19Sum, c19T2}, Rules: rules}, Files: []inFile{{"in.json", doc}}}
 	}
 	return &progCase{P: &Program{Funcs: []*Func{c19T, c19Sum, c19T2}, Rules: []*Rule{{Kind: "BEGIN", Body: body}}}}
 }
@@ -170,7 +189,7 @@ func c19Check(c *fw.Ctx, s c19Spec, pats []c19Pat) *fw.Violation {
 func init() {
 	fw.Register(addTok(tokFramesC19, &fw.Prop{
 		ID: "C19",
-		Rule: "12 subjects (scalars of every kind, unset, arrays of several lengths and nestings, an object) x all case lists of <= 2 cases with <= 2 alternatives each and all lists of 3 single-alternative cases over the pattern alphabet x 5 body kinds (expression using the bound names, block with a trace, tracing call, a body that runs three further matches -- new name, array pattern, shadowing -- before using the names again, a body that calls matching / recursing functions); " +
+		Rule: "12 subjects (scalars of every kind, unset, arrays of several lengths and nestings, an object) x all case lists of <= 2 cases with <= 2 alternatives each and all lists of 3 single-alternative cases over the pattern alphabet x 6 body kinds (a block left by continue / next, expression using the bound names, block with a trace, tracing call, a body that runs three further matches -- new name, array pattern, shadowing -- before using the names again, a body that calls matching / recursing functions); " +
 			"every case list of <= 3 single-alternative cases is also run as ONE match site over the sequence of all subjects (forward and reversed); outer variables named like the pattern names exist, so leaking or clobbering a binding is visible; oracle: DESIGN.md 3.17 through the reference interpreter (selected case, bindings, value, and the trace shows that no later pattern or body ran); " +
 			"a state is (subject, first-case pattern, selected?); non-trivial = (subject, pattern) pairs that match",
 		Plan: func(t fw.Tier) int { return len(c19Patterns(t == fw.Thorough)) * len(c19Subjects) },
